@@ -324,7 +324,7 @@ function analyze(req) {
       let s = st;
       if (s.type === 'ExportNamedDeclaration' || s.type === 'ExportDefaultDeclaration') s = s.declaration || s;
       if (!s || !s.type) continue;
-      if (s.type === 'FunctionDeclaration' && s.id) declare(scope, s.id.name, isFuncTop ? 'function' : 'blockfunction');
+      if (s.type === 'FunctionDeclaration' && s.id) { declare(scope, s.id.name, isFuncTop ? 'function' : 'blockfunction'); if (!isFuncTop) { const f = funcScope(scope); if (f) declare(f, s.id.name, 'annexb'); } } // Annex B.3.3: block functions are also var-scoped in sloppy code
       else if (s.type === 'ClassDeclaration' && s.id) declare(scope, s.id.name, 'class');
       else if (s.type === 'VariableDeclaration' && s.kind !== 'var') for (const d of s.declarations) declNames(d.id, (n) => declare(scope, n, s.kind));
     }
@@ -400,7 +400,8 @@ function analyze(req) {
   const free = new Map();
   const withIdents = new Set();
   function resolve(name, s) { for (; s; s = s.parent) if (s.decl.has(name)) return s; return null; }
-  function inWith(s) { for (; s; s = s.parent) if (s.hasWith) return true; return false; }
+  // names of the function (or top-level code) that itself contains the with statement; nested functions may rename their own locals
+  function inWith(s) { const f = funcScope(s); return !!(f && f.hasWith); }
   for (const s of scopes) {
     for (const r of s.refs) {
       const d = resolve(r.name, s);
